@@ -1,5 +1,5 @@
 //! C18 end-to-end: `e2e timestamp n=<nodes> sh=<shards> threads=<t> tasks=<W> per=<k> explicit=<every m-th|0>
-//! gen=<mono|script> evict=<M|0> ov=<F|0> spec=<0|1> via=<session|caching> seed=<s>`
+//! gen=<mono|script> evict=<M|0> ov=<F|0> spec=<0|1> via=<session|caching> mix=<1|2> seed=<s>`
 //!
 //! A Session with `SessionBuilder::timestamp_generator(..)` - the MonotonicTimestampGenerator, or a scripted generator
 //! (`gen=script`: base + k*step, every value handed out is recorded) - on a `threads`-thread runtime; W tasks run
@@ -12,6 +12,15 @@
 //!              so the retry policy sends the request AGAIN on another target;
 //!   `spec=1`   speculative execution (2 extra executions, 3 ms apart; statements idempotent) while every 4th frame is
 //!              answered only after 12 ms, so SPECULATIVE COPIES are sent.
+//!
+//! `mix=2` (plain Session; every generated case): the writes cycle through TWELVE entry points instead of three:
+//! execute_unpaged / query_unpaged(text, ()) / batch(prepared)  (= `mix=1`), and
+//!   batch with an UNPREPARED statement WITH VALUES, and mixed with a prepared one (`Connection::prepare_batch` rebuilds
+//!     the batch with `Batch::new_from` before its timestamp is read);
+//!   query_unpaged / query_single_page with NON-EMPTY values (per attempt `Connection::prepare(statement)` then EXECUTE:
+//!     the statement's timestamp must survive Statement -> PreparedStatement);
+//!   query_iter with values (prepare on all nodes, then the EXECUTE pager) and without (the QUERY pager);
+//!   execute_iter, execute_single_page, query_single_page(text, ()).
 //!
 //! `via=caching`: the same writes go through a `CachingSession` (cache of 2 statements, so it keeps re-preparing):
 //! `execute_unpaged(text, values)`, `execute_iter(SELECT text, values)`, and `batch` with an UNPREPARED statement
@@ -40,13 +49,13 @@ pub fn generate(rng: &mut Rng, tier: Tier, emit: &mut dyn FnMut(String)) {
     let n_cases = if tier == Tier::Quick { 24 } else { 240 };
     for _ in 0..n_cases {
         emit(format!(
-            "e2e timestamp n={} sh={} threads={} tasks={} per={} explicit={} seed={}",
+            "e2e timestamp n={} sh={} threads={} tasks={} per={} explicit={} mix=2 seed={}",
             1 + rng.below(3),
             *rng.pick(&[0u64, 0, 2, 4]),
             *rng.pick(&[1u64, 2, 4, 4]),
             1 + rng.below(8),
-            4 + rng.below(if tier == Tier::Quick { 20 } else { 60 }),
-            *rng.pick(&[0u64, 3, 5]),
+            12 + rng.below(if tier == Tier::Quick { 14 } else { 60 }),
+            *rng.pick(&[0u64, 1, 3, 5]),
             rng.below(1 << 32)
         ));
     }
@@ -60,12 +69,12 @@ pub fn generate(rng: &mut Rng, tier: Tier, emit: &mut dyn FnMut(String)) {
             _ => (2 + rng.below(4), 3 + rng.below(5), rng.below(2)),
         };
         emit(format!(
-            "e2e timestamp n={} sh={} threads={} tasks={} per={} explicit={} gen={} evict={} ov={} spec={} seed={}",
+            "e2e timestamp n={} sh={} threads={} tasks={} per={} explicit={} gen={} evict={} ov={} spec={} mix=2 seed={}",
             1 + rng.below(3),
             *rng.pick(&[0u64, 0, 2]),
             *rng.pick(&[1u64, 2, 4]),
             1 + rng.below(4),
-            6 + rng.below(if tier == Tier::Quick { 12 } else { 30 }),
+            12 + rng.below(if tier == Tier::Quick { 12 } else { 30 }),
             *rng.pick(&[1u64, 2, 2, 3, 4]),
             rng.pick(&["mono", "script"]),
             evict,
@@ -119,6 +128,11 @@ fn text_of(task: usize, i: usize) -> String {
     format!("INSERT INTO ks.t (pk, v) VALUES (0x{}, 0)", crate::util::hex(&key_of(task, i)))
 }
 
+/// `mix=2`: a SELECT with the key inline (QUERY frame through the pager / single page)
+fn text_sel_of(task: usize, i: usize) -> String {
+    format!("SELECT pk, v FROM ks.t WHERE pk = 0x{}", crate::util::hex(&key_of(task, i)))
+}
+
 fn explicit_ts(seed: u64, task: usize, i: usize) -> i64 {
     let mut r = Rng::new(seed ^ ((task as u64) << 32) ^ i as u64 ^ 0x7473);
     r.i64_boundary()
@@ -142,7 +156,10 @@ fn write_of(r: &Req) -> Option<(usize, usize, Option<i64>)> {
             Some((t, i, params.timestamp))
         }
         Parsed::Query { text, params } => {
-            let hex = text.strip_prefix("INSERT INTO ks.t (pk, v) VALUES (0x")?.split(',').next()?;
+            let hex = match text.strip_prefix("INSERT INTO ks.t (pk, v) VALUES (0x") {
+                Some(rest) => rest.split(',').next()?,
+                None => text.strip_prefix("SELECT pk, v FROM ks.t WHERE pk = 0x")?,
+            };
             let (t, i) = from_key(&crate::util::unhex(hex)?)?;
             Some((t, i, params.timestamp))
         }
@@ -203,6 +220,10 @@ pub fn run(words: &[&str], ctx: &mut Ctx) -> String {
         return "bad-case".into();
     }
     let caching = via == "caching";
+    let Some(mix) = p.num_or("mix", 1) else { return "bad-case".into() };
+    if !(1..=2).contains(&mix) {
+        return "bad-case".into();
+    }
     // hard=1 (never generated): the node may evict for the same write again and again
     let Some(hard) = p.num_or("hard", 0) else { return "bad-case".into() };
     if !(1..=8).contains(&n) || sh > 8 || !(1..=8).contains(&threads) || !(1..=64).contains(&tasks) || !(1..=2000).contains(&per) {
@@ -256,6 +277,11 @@ pub fn run(words: &[&str], ctx: &mut Ctx) -> String {
                 return vec![Act::Respond(crate::mocknode::RESP_RESULT, rows_body(&row_specs(), !params.skip_metadata, None, &[]))];
             }
         }
+        if let Parsed::Query { text, .. } = &r.parsed {
+            if text.starts_with("SELECT pk, v FROM ks.t WHERE pk = 0x") {
+                return vec![Act::Respond(crate::mocknode::RESP_RESULT, rows_body(&row_specs(), true, None, &[]))];
+            }
+        }
         vec![act_void()]
     });
     let scripted = Arc::new(ScriptedGenerator {
@@ -291,6 +317,11 @@ pub fn run(words: &[&str], ctx: &mut Ctx) -> String {
             Err(_) => return "e2e-skip prepare-failed".to_owned(),
         };
         ps.set_is_idempotent(idempotent);
+        let mut ps_sel = match session.prepare(SELECT).await {
+            Ok(ps) => ps,
+            Err(_) => return "e2e-skip prepare-failed".to_owned(),
+        };
+        ps_sel.set_is_idempotent(idempotent);
         let is_explicit = move |i: usize| explicit != 0 && i % explicit == explicit - 1;
         // via=caching: the Session is owned by the CachingSession (tiny cache: constant client-side re-preparation)
         enum Via {
@@ -308,6 +339,7 @@ pub fn run(words: &[&str], ctx: &mut Ctx) -> String {
         let mut handles = Vec::new();
         for task in 0..tasks {
             let ps = ps.clone();
+            let ps_sel = ps_sel.clone();
             let via_t = match &via_obj {
                 Via::Plain(s) => Via::Plain(Arc::clone(s)),
                 Via::Caching(c) => Via::Caching(Arc::clone(c)),
@@ -343,11 +375,50 @@ pub fn run(words: &[&str], ctx: &mut Ctx) -> String {
                         b.set_is_idempotent(idempotent);
                         b
                     };
+                    let configured_sel = || {
+                        let mut h = ps_sel.clone();
+                        h.set_timestamp(ts);
+                        h.set_consistency(cl);
+                        h.set_serial_consistency(sc);
+                        h
+                    };
+                    // drains a pager (the frames are what is judged; rows are empty)
+                    async fn drain(pager: Result<scylla::client::pager::QueryPager, scylla::errors::PagerExecutionError>) -> bool {
+                        use futures::StreamExt;
+                        match pager {
+                            Ok(pager) => match pager.rows_stream::<(Vec<u8>, i32)>() {
+                                Ok(mut rows) => {
+                                    let mut ok = true;
+                                    while let Some(r) = rows.next().await {
+                                        ok &= r.is_ok();
+                                    }
+                                    ok
+                                }
+                                Err(_) => false,
+                            },
+                            Err(_) => false,
+                        }
+                    }
+                    let start = scylla::response::PagingState::start;
                     let ok = match &via_t {
-                        Via::Plain(session) => match (task + i) % 3 {
+                        Via::Plain(session) => match (task + i) % (if mix == 2 { 12 } else { 3 }) {
                             0 => session.execute_unpaged(&configured_ps(), (key, 0i32)).await.is_ok(),
                             1 => session.query_unpaged(configured_stmt(&text_of(task, i)), ()).await.is_ok(),
-                            _ => session.batch(&configured_batch(vec![ps.clone().into()]), ((key, 0i32),)).await.is_ok(),
+                            2 => session.batch(&configured_batch(vec![ps.clone().into()]), ((key, 0i32),)).await.is_ok(),
+                            // an UNPREPARED statement with values: Connection::prepare_batch rebuilds the batch (Batch::new_from)
+                            3 => session.batch(&configured_batch(vec![Statement::new(INSERT).into()]), ((key, 0i32),)).await.is_ok(),
+                            4 => session
+                                .batch(&configured_batch(vec![ps.clone().into(), Statement::new(INSERT).into()]), ((key.clone(), 0i32), (key, 1i32)))
+                                .await
+                                .is_ok(),
+                            // a Statement WITH VALUES: Connection::prepare(statement), then EXECUTE of the result
+                            5 => session.query_unpaged(configured_stmt(INSERT), (key, 0i32)).await.is_ok(),
+                            6 => drain(session.query_iter(configured_stmt(SELECT), (key,)).await).await,
+                            7 => drain(session.query_iter(configured_stmt(&text_sel_of(task, i)), ()).await).await,
+                            8 => drain(session.execute_iter(configured_sel(), (key,)).await).await,
+                            9 => session.execute_single_page(&configured_ps(), (key, 0i32), start()).await.is_ok(),
+                            10 => session.query_single_page(configured_stmt(&text_of(task, i)), (), start()).await.is_ok(),
+                            _ => session.query_single_page(configured_stmt(INSERT), (key, 0i32), start()).await.is_ok(),
                         },
                         Via::Caching(cs) => match (task + i) % 5 {
                             0 => cs.execute_unpaged(configured_stmt(INSERT), (key, 0i32)).await.is_ok(),
